@@ -63,6 +63,25 @@ impl Journal {
         JournalIter::new(self)
     }
 
+    /// Starts a transaction: records inserted afterwards become durable together at
+    /// [`Journal::commit`], or not at all.
+    pub fn begin(&self) -> Result<(), PersistenceError> {
+        self.conn().execute_batch("BEGIN IMMEDIATE")?;
+        Ok(())
+    }
+
+    /// Commits the transaction started with [`Journal::begin`].
+    pub fn commit(&self) -> Result<(), PersistenceError> {
+        self.conn().execute_batch("COMMIT")?;
+        Ok(())
+    }
+
+    /// Abandons the transaction started with [`Journal::begin`].
+    pub fn rollback(&self) -> Result<(), PersistenceError> {
+        self.conn().execute_batch("ROLLBACK")?;
+        Ok(())
+    }
+
     /// Inserts a record, this is an append only operation.
     ///
     /// Records should never be posthumously modified. The first message serialized to the journal
@@ -118,7 +137,6 @@ impl Journal {
         soa_serial: u32,
         records: &[Record],
     ) -> Result<(), PersistenceError> {
-        // TODO: NEED TRANSACTION HERE
         for record in records {
             self.insert_record(soa_serial, record)?;
         }
